@@ -30,12 +30,14 @@ def world(env):
     pc, pd = m.Symbol("pc", mk_type(env, PB)), m.Symbol("pd", mk_type(env, PB))
     F = {"pa=pb": m.Equals(pa, pb), "pc=pd": m.Equals(pc, pd),
          "p": p, "q|p": m.Or(q, p), "u=1": m.Equals(u, m.BV(1, 2)), "h(p)": m.Function(h, [p]),
-         "!p": m.Not(p), "c1=c2": m.Equals(c1, c2), "!q": m.Not(q), "u<2": m.BVULT(u, m.BV(2, 2))}
+         "!p": m.Not(p), "c1=c2": m.Equals(c1, c2), "!q": m.Not(q), "u<2": m.BVULT(u, m.BV(2, 2)),
+         # r only occurs in a part that simplification removes
+         "p&(r|!r)": m.And(p, m.Or(m.Symbol("r"), m.Not(m.Symbol("r"))))}
     T = {"p": p, "q": q, "u": u, "u+1": m.BVAdd(u, m.BV(1, 2)), "q&p": m.And(q, p)}
     return F, T
 
 
-EVENTS_Q = [("add", "p"), ("add", "q|p"), ("add", "u=1"), ("add", "!p"), ("push", 1), ("push", 2), ("pop", 1),
+EVENTS_Q = [("add", "p"), ("add", "q|p"), ("add", "u=1"), ("add", "!p"), ("add", "p&(r|!r)"), ("push", 1), ("push", 2), ("pop", 1),
             ("pop", 2), ("reset",), ("solve",), ("value", "p"), ("value", "u+1"), ("model",), ("is_sat", "!q")]
 EVENTS_T = EVENTS_Q + [("add", "h(p)"), ("add", "u<2"), ("value", "q&p"), ("is_valid", "q|p"), ("is_unsat", "!p")]
 EVENTS_SORT = [("add", "c1=c2"), ("add", "pa=pb"), ("add", "pc=pd"), ("push", 1), ("push", 2), ("pop", 1), ("pop", 2),
@@ -143,10 +145,13 @@ def run_history(hist, alphabet="main"):
                         return Outcome(legal=False)
                     model = solver.get_model()
                     obs = "model"
+                    # every symbol of the live assertions that the solver was told about (a symbol that
+                    # simplification removed before the assertion was sent has no reported value)
+                    told = srv.solver.it.all_funs()
                     need = {}
                     for n in live():
                         for sn, ss in free_symbols(F[n]).items():
-                            if not (isinstance(ss, tuple) and ss[0] in ("Fun", "Sort")):
+                            if sn in told and not (isinstance(ss, tuple) and ss[0] in ("Fun", "Sort")):
                                 need[sn] = ss
                     assigned = {kk.symbol_name(): vv for kk, vv in model}
                     for sn in sorted(need):
@@ -158,6 +163,13 @@ def run_history(hist, alphabet="main"):
                             viol = ("model", "the model assigns %s=%r, the solver reported %r"
                                     % (sn, got, srv.solver.model[sn]))
                             break
+                    if not viol:
+                        for n in live():
+                            if any(isinstance(ss, tuple) and ss[0] in ("Fun", "Sort") for ss in free_symbols(F[n]).values()):
+                                continue
+                            if not model.satisfies(F[n]):
+                                viol = ("model", "the model does not satisfy the live assertion %s" % n)
+                                break
             except SS.WouldBlock:
                 viol = ("blocks", "%s: a read would block forever (pending %r)" % (k, srv.pending()))
             except Exception as e:
@@ -247,7 +259,7 @@ def run_shortcuts(ctx):
         F, T = world(env)
         env.factory.add_generic_solver("ref", ["ref"], [QF_UFBV])
         m = env.formula_manager
-        cases = [F["p"], F["q|p"], m.And(F["p"], F["!p"]), m.And(F["u=1"], F["u<2"]), m.And(F["u=1"], m.Not(F["u<2"])),
+        cases = [F["p"], F["q|p"], F["p&(r|!r)"], m.And(F["p"], F["!p"]), m.And(F["u=1"], F["u<2"]), m.And(F["u=1"], m.Not(F["u<2"])),
                  m.Or(F["p"], F["!p"]), F["h(p)"]]
         for f in cases:
             sat = truth([f])
